@@ -81,6 +81,25 @@ def r1_no_state_leak(ctx: Context) -> None:
                         for nm in ast.walk(bn.ast.target):
                             if isinstance(nm, ast.Name):
                                 assigned.setdefault(nm.id, []).append(bn)
+                # containers filled inside the loop but created outside it: every item's constructor sees the earlier items' entries
+                mutated_in_loop = set()
+                for x in ast.walk(lp):
+                    if isinstance(x, (ast.Assign, ast.AugAssign)):
+                        for t in (x.targets if isinstance(x, ast.Assign) else [x.target]):
+                            if isinstance(t, ast.Subscript) and isinstance(t.value, ast.Name):
+                                mutated_in_loop.add(t.value.id)
+                    if isinstance(x, ast.Call) and isinstance(x.func, ast.Attribute) and isinstance(x.func.value, ast.Name) \
+                            and x.func.attr in ("append", "add", "update", "extend", "setdefault", "insert"):
+                        mutated_in_loop.add(x.func.value.id)
+                for c in ctors:
+                    for nm in sorted({n.id for n in ast.walk(c) if isinstance(n, ast.Name) and isinstance(n.ctx, ast.Load)}):
+                        if nm in mutated_in_loop and nm not in assigned and nm not in targets:
+                            outer = [a for a in ast.walk(fn) if isinstance(a, ast.Assign) and any(isinstance(t, ast.Name) and t.id == nm for t in a.targets)
+                                     and not any(a is y for y in ast.walk(lp))]
+                            if outer:
+                                ctx.violation("C19.R1", f"{qualname(fn)}|container `{nm}` into {call_name(c)}(...) in the loop at line {lp.lineno}", loc(outer[0]),
+                                              f"`{nm}` is created once outside the per-item loop (`{norm(outer[0])[:40]}`), filled inside it and handed to "
+                                              f"`{call_name(c)}(...)` for every item: each item also gets the entries of all items before it")
                 for c in ctors:
                     cn = g.node_of(c)
                     used0 = {n.id for n in ast.walk(c) if isinstance(n, ast.Name) and isinstance(n.ctx, ast.Load)}
@@ -440,6 +459,17 @@ def r6_closed_loop(ctx: Context) -> None:
         and isinstance(decs[0].op, ast.Sub) and lin.lin_of(decs[0].value).const == 1 and g.edge_dominates(tests[0], "T", g.node_of(decs[0]))
     ctx.check(ok, "C19.R6", "JobGraph.get_next_task_graph|budget tested > 0 and decremented before generating", loc(nx), "ok",
               "a further closed-loop graph can be generated without consuming the invocation budget")
+    # the follow-up graph gets a fresh index: the counter left at the last used index is advanced BEFORE the name is built
+    idx = [a for a in ast.walk(nx) if isinstance(a, ast.AugAssign) and is_self_attr(a.target, "_task_graph_index")]
+    okn = bool(gens) and bool(idx) and isinstance(idx[0].op, ast.Add) and lin.lin_of(idx[0].value).const == 1 and g.dominates(g.node_of(idx[0]), g.node_of(gens[0])) \
+        and any(k.arg == "task_graph_name" and "self._task_graph_index" in norm(k.value) for k in gens[0].keywords) \
+        and any(k.arg == "timestamp" and norm(k.value) == "self._task_graph_index" for k in gens[0].keywords)
+    last = [a for a in ast.walk(gen) if isinstance(a, ast.Assign) and is_self_attr(a.targets[0], "_task_graph_index")]
+    okl = bool(last) and lin.lin_of(last[-1].value) == lin.lin_of(ast.parse("len(task_graphs) - 1", mode="eval").body)
+    ctx.check(okn and okl, "C19.R6", "JobGraph.get_next_task_graph|follow-up graph named with a fresh index", loc(idx[0]) if idx else loc(nx),
+              "index := last used (generate_task_graphs), += 1 before naming",
+              "the follow-up graph is named / timestamped with an index that is already in use: it replaces the still unfinished graph of that name "
+              "in the workload, whose remaining tasks are then never scheduled (or their completion is rejected)")
     wl = ctx.repo.mod(WORKLOAD).cls("Workload")
     nt = method(wl, "notify_task_graph_completion")
     g2 = cfgmod.build(nt)
@@ -620,4 +650,6 @@ def run(ctx: Context) -> None:
     from . import c17
     ctx.isolate(c17.r6_weights_in_one_unit, _alias={"C17.R6": "C19.R8"})
     ctx.isolate(c17.r3_longest_path, _alias={"C17.R3": "C19.R12"})
+    from . import c16
+    ctx.isolate(c16.r6_no_raw_time_numbers, rule="C19.R14", files=("workload/jobs.py", "workload/workload.py", "data/workload_loader.py", "data/worker_loader.py", "workload/graph.py"), floor=15)
     ctx.isolate(c17.cache_coherence, "C19.R13", ("JobGraph", "Graph"), "deadlines are release + the completion time of the graph as it is", 2)
